@@ -67,6 +67,9 @@ def _strategy(draw, tier):
             # gc run by an ordinary user on outputs that contain read-only directories (a Go module cache, a Nix/Bazel
             # style store, `chmod -R a-w` of intermediate results): the user owns them, gc has to get rid of them
             "readonly": draw(st.sampled_from([False, False, False, True])),
+            # the order in which the versions were recorded (= the order in which the index hands them out): sorted by
+            # task, or interleaved across packages as successive runs / restores produce it
+            "row_order": draw(st.sampled_from([0, 1, 2, 3, 4, 5])),
             # manual additions: symbolic links placed in cond-out by hand
             "links": draw(st.sampled_from([[], [], [], ["outside"], ["alias"], ["tasklike"], ["outside", "alias", "tasklike"]]))}
 
@@ -222,7 +225,12 @@ def build(root, case):
             if not os.path.lexists(os.path.join(out, "lnk.task.7")):
                 os.symlink(tgt, os.path.join(out, "lnk.task.7"))
     if rows:
-        projgen.seed_rows(root, [(t, ts, None, False) for t, ts in sorted(rows)], make_dirs=False)
+        import hashlib
+        k = case.get("row_order", 0)
+        ordered = sorted(rows) if k == 0 else sorted(rows, key=lambda r: hashlib.sha1(("%d|%s|%d" % (k, r[0], r[1])).encode()).hexdigest())
+        if k and len({r[0].rpartition(":")[0] for r in rows}) > 1:
+            labels.add("versions_recorded_in_interleaved_package_order")
+        projgen.seed_rows(root, [(t, ts, None, False) for t, ts in ordered], make_dirs=False)
     else:
         projgen.seed_rows(root, [], make_dirs=False)
     if case.get("readonly"):
